@@ -528,7 +528,8 @@ class Translator:
 
     def components(self, v, env):
         """Tuple-valued value -> list of RF components (tuple aggregate, or inlined workspace call returning a tuple)."""
-        if v[0] == "agg" and v[1] == "tuple":
+        triples = list((getattr(self.P, "_triple_fields", None) or {}).values())
+        if v[0] == "agg" and (v[1] == "tuple" or (v[1] == "adt" and [n for n, _ in v[3]] in triples)):
             out = []
             for _, x in v[3]:
                 try:
